@@ -7,13 +7,13 @@ CONSTANTS
   P = 1
   W = 1
   Strict = FALSE
+  StrictHeal = FALSE
   PortOps <- AllOps
   OpPorts <- AllOpPorts
   Fresh <- AnyFresh
   MaxChan = 3
   D = 50
 INIT Init
-NEXT Next
-ACTION_CONSTRAINT DownAtomic
+NEXT SimNext
 INVARIANT Export
 CHECK_DEADLOCK FALSE
